@@ -108,6 +108,10 @@ func forwardTaint(fn *ssa.Function, isSource func(v ssa.Value) bool) (tainted ma
 
 func init() {
 	register("C04",
+		Rule{ID: "C04.j", Explain: "package-level mutable state in the proving and verifying call tree (the rule of C20.l with this property's entry points): honest proofs built or verified at the same time compute on private data only; a hash state, generator or scratch value hoisted to package level and used without a lock makes the exponent a proof is made for differ from the one the issuer signed.",
+			Run: func(P *Program, R *Report) {
+				packageStateRule(P, R, "C04.j", []string{"gabi.(*Credential).CreateDisclosureProof", "gabi.(*Credential).CreateDisclosureProofBuilder", kListVerify, kProofDVerify, "gabi.(ProofBuilderList).BuildProofList"}, 1)
+			}},
 		Rule{ID: "C04.a", Explain: "taint: a raw attribute value (a load from the builder's attribute list) reaches an output only (i) unmodified into ADisclosed / the timestamp slice under the SAME index drawn from disclosedAttributes, (ii) through the response form randomiser + challenge*value, or (iii) into the range-proof committer; every other sink is reported as a leak.",
 			Run: func(P *Program, R *Report) { attributeFlowRule(P, R) }},
 		Rule{ID: "C04.b", Explain: "CreateProof gives every undisclosed index a response and every disclosed index a disclosed value (unconditional map update on every path through the loop bodies); the builder gives every undisclosed index a fresh randomiser and takes the index lists from the caller / the complement helper.",
